@@ -448,76 +448,7 @@ func runR_C02(c *Ctx) {
 			}
 		}
 	}
-	// … and for every pair of a curried and a two-argument run whose decisions do not contradict each other (an input
-	// satisfying both exists): the bodies must be equal. When both forms are generated by the same code this reduces to the
-	// comparison above; it catches a curried form that is generated by other code (which asks other questions).
-	type formRun struct {
-		cfg  string
-		dec  map[string]int
-		body string
-		rs   *Resid
-	}
-	forms := map[int][]formRun{}
-	for k, m := range bodies {
-		for nargs, body := range m {
-			parts := strings.SplitN(k, "|", 2)
-			fr := formRun{cfg: parts[0], dec: map[string]int{}, body: body, rs: bodyRun[k]}
-			if len(parts) == 2 {
-				for _, kv := range strings.Split(parts[1], ";") {
-					if i := strings.LastIndex(kv, "="); i > 0 {
-						n := 0
-						fmt.Sscanf(kv[i+1:], "%d", &n)
-						sym := kv[:i]
-						if strings.HasPrefix(sym, "B:") || strings.HasPrefix(sym, "N:") || strings.HasPrefix(sym, "NMF:") || strings.HasPrefix(sym, "S:") || strings.HasPrefix(sym, "A:*pred:") {
-							// predicates, arities, names and basic kinds are properties of the type at every level,
-							// whether it was reached through Underlying() or not
-							sym = strings.ReplaceAll(sym, ".Underlying()", "")
-						}
-						fr.dec[parts[0]+"|"+sym] = n
-					}
-				}
-			}
-			forms[nargs] = append(forms[nargs], fr)
-		}
-	}
-	reported := false
-	pairs := 0
-	for _, cu := range forms[1] {
-		for _, bi := range forms[2] {
-			if cu.body == bi.body || cu.cfg != bi.cfg {
-				continue // different configurations name the same positions differently (tied vs free): not comparable
-			}
-			compatible := true
-			for sym, v := range cu.dec {
-				if w, ok := bi.dec[sym]; ok && w != v {
-					compatible = false
-					break
-				}
-			}
-			if compatible {
-				// the same type value may be refined through different questions (an assertion in one form, a type switch on
-				// its Underlying() in the other): the kinds they establish must agree too
-				ck, bk := kindFacts(cu.rs.Run), kindFacts(bi.rs.Run)
-				for org, k := range ck {
-					if k2, ok := bk[org]; ok && k2 != k {
-						compatible = false
-						break
-					}
-				}
-			}
-			if !compatible {
-				continue
-			}
-			pairs++
-			if !reported {
-				reported = true
-				c.Rep.fail(residFinding(c.Repo, cu.rs, "R-curried", "differs-compatible", "equal: for an input that satisfies both abstract paths the one-argument (curried) form emits `"+truncate(cu.body, 120)+"` while the two-argument form emits `"+truncate(bi.body, 120)+"`: the two forms do not agree (two-argument path: "+truncate(bi.rs.Run.describe(), 700)+")", cu.rs.Funcs[0]))
-			}
-		}
-	}
-	if pairs == 0 {
-		c.Rep.pass("R-curried")
-	}
+	curriedCompat(c, "equal", bodies, bodyRun)
 	c.Rep.analysed("equal_residuals", n)
 	methodBeforeOperator(c, "equal", "canEqual", "equalMethodInputParam", "R-method", "`==`")
 	runG9(c, "equal.canEqual")
@@ -683,4 +614,77 @@ func kindFacts(r *Run) map[string]string {
 		}
 	}
 	return out
+}
+
+// curriedCompat: for every pair of a curried and a two-argument run whose decisions do not contradict each other (an input
+// satisfying both exists) the bodies must be equal. When both forms are generated by the same code this reduces to comparing
+// runs with identical decisions; it catches a curried form that is generated by other code (which asks other questions).
+func curriedCompat(c *Ctx, plugin string, bodies map[string]map[int]string, bodyRun map[string]*Resid) {
+	type formRun struct {
+		cfg  string
+		dec  map[string]int
+		body string
+		rs   *Resid
+	}
+	forms := map[int][]formRun{}
+	for k, m := range bodies {
+		for nargs, body := range m {
+			parts := strings.SplitN(k, "|", 2)
+			fr := formRun{cfg: parts[0], dec: map[string]int{}, body: body, rs: bodyRun[k]}
+			if len(parts) == 2 {
+				for _, kv := range strings.Split(parts[1], ";") {
+					if i := strings.LastIndex(kv, "="); i > 0 {
+						n := 0
+						fmt.Sscanf(kv[i+1:], "%d", &n)
+						sym := kv[:i]
+						if strings.HasPrefix(sym, "B:") || strings.HasPrefix(sym, "N:") || strings.HasPrefix(sym, "NMF:") || strings.HasPrefix(sym, "S:") || strings.HasPrefix(sym, "A:*pred:") {
+							// predicates, arities, names and basic kinds are properties of the type at every level,
+							// whether it was reached through Underlying() or not
+							sym = strings.ReplaceAll(sym, ".Underlying()", "")
+						}
+						fr.dec[parts[0]+"|"+sym] = n
+					}
+				}
+			}
+			forms[nargs] = append(forms[nargs], fr)
+		}
+	}
+	reported := false
+	pairs := 0
+	for _, cu := range forms[1] {
+		for _, bi := range forms[2] {
+			if cu.body == bi.body || cu.cfg != bi.cfg {
+				continue // different configurations name the same positions differently (tied vs free): not comparable
+			}
+			compatible := true
+			for sym, v := range cu.dec {
+				if w, ok := bi.dec[sym]; ok && w != v {
+					compatible = false
+					break
+				}
+			}
+			if compatible {
+				// the same type value may be refined through different questions (an assertion in one form, a type switch on
+				// its Underlying() in the other): the kinds they establish must agree too
+				ck, bk := kindFacts(cu.rs.Run), kindFacts(bi.rs.Run)
+				for org, k := range ck {
+					if k2, ok := bk[org]; ok && k2 != k {
+						compatible = false
+						break
+					}
+				}
+			}
+			if !compatible {
+				continue
+			}
+			pairs++
+			if !reported {
+				reported = true
+				c.Rep.fail(residFinding(c.Repo, cu.rs, "R-curried", "differs-compatible", plugin+": for an input that satisfies both abstract paths the one-argument (curried) form emits `"+truncate(cu.body, 120)+"` while the two-argument form emits `"+truncate(bi.body, 120)+"`: the two forms do not agree (two-argument path: "+truncate(bi.rs.Run.describe(), 700)+")", cu.rs.Funcs[0]))
+			}
+		}
+	}
+	if pairs == 0 {
+		c.Rep.pass("R-curried")
+	}
 }
